@@ -5,6 +5,7 @@ var verifHarnesses = map[string]func(){
 	"VerifC18PosMapRoundTrip":      VerifC18PosMapRoundTrip,
 	"VerifC18PosMapHostile":        VerifC18PosMapHostile,
 	"VerifC06StreamHandler":        VerifC06StreamHandler,
+	"VerifC06ForwardedBadFile":     VerifC06ForwardedBadFile,
 	"VerifC06StreamDB":             VerifC06StreamDB,
 	"VerifC20Invalid":              VerifC20Invalid,
 	"VerifC19Proxy":                VerifC19Proxy,
